@@ -65,7 +65,7 @@ def FOp.render : FOp → String
 
 /-- observed: (offset, kind letter, finalize words) per event, maxok, end counters -/
 def pipeEventOk (k : String) (fins : List Nat) : Bool :=
-  if k = "p" ∨ k = "s" then fins == [3] else if k = "d" then fins == [1] else if k = "h" then fins == [0, 3]
+  if k = "p" ∨ k = "s" then fins == [3] else if k = "d" ∨ k = "q" then fins == [1] else if k = "h" then fins == [0, 3]
   else if k = "x" ∨ k = "r" then fins.isEmpty else false
 
 end FileD.SpecC05
